@@ -235,6 +235,8 @@ PROPS["C03"] = {
         ("R-JAC-ABSENT", rules_err.rule_jac_absent, {}),
         ("R-VEC-COLMAJOR", rp.rule_vec_colmajor, {}),
         ("R-SHAPES", shapes.rule_shapes, {"parts": ("set_params", "jacobian")}),
+        # W in the Kaufman column is the row-scaling operator: every operator impl for the weights must be that scaling
+        ("R-ROW-SCALING", rp2.rule_row_scaling, {}),
     ],
     "explanation": "Algebraic normal form of the value written to Jacobian column k equals +U*U^T*X - X with X = W*eval_partial_deriv(model,k)*C, U the cached left singular vectors, "
                    "k the enumerate index of the column; allocation (output_len*ncols(Y_w)) x parameter_count; same flattening as the residuals; Some(J) only through the Ok edge of the collected column results.",
@@ -381,6 +383,8 @@ PROPS["C14"] = {
         ("R-MODEL-JAC", rs2.rule_model_jac, {}),
         # "at the optimum": the model and coefficients the Jacobian is built from are those of the fitted problem
         ("R-STATS-ARGS", rs2.rule_stats_args, {}),
+        # σ_i² = j_iᵀ·Cov·j_i: the band is only as good as the covariance it is computed from
+        ("R-COVARIANCE", rs2.rule_covariance, {}),
     ],
     "explanation": "confidence_band_radius continues past its assertion only if p is finite, > 0 and < 1 (else the documented panic); quantile level is the affine form (p+1)/2; degrees of freedom handed to the Student-t quantile are the stored N-(M+P) by pure conversion; "
                    "radius_i = t * sigma_i in lock-step over the samples; sigma_i = sqrt(j_i^T Cov j_i) over the rows of the unweighted model-function Jacobian.",
